@@ -31,6 +31,8 @@ type gtCert struct {
 	notBefore  time.Time
 	notAfter   time.Time
 	bcValid    bool
+	manySANs   bool
+	forgedSig  bool // the signature is made invalid on purpose (an attacker's certificate naming a genuine issuer)
 	oldVersion int // 1 or 2: re-issued as an X.509 v1 / v2 certificate (no extensions at all)
 	isCA       bool
 	pathLen    int // -1 unset
@@ -413,7 +415,7 @@ func runTopology(c *Ctx, ti int, r *mon.RNG) {
 				g.foreign = 0
 			}
 		}
-		if g.role != "root" && bad(12) { // corrupt the signature of a few certificates
+		if g.role != "root" && (g.forgedSig || bad(12)) { // corrupt the signature of a few certificates
 			der = append([]byte{}, der...)
 			der[len(der)-5] ^= 0x40
 			g.signerKey = -1
@@ -427,6 +429,14 @@ func runTopology(c *Ctx, ti int, r *mon.RNG) {
 	}
 	randValidity := func() (time.Time, time.Time) {
 		switch {
+		case ti%4 == 1 && bad(6):
+			// a window that lies wholly beyond what a signed 64-bit nanosecond count can express (after 2262): not yet valid
+			rep.Count("certificates_valid_only_after_year_2262", 1)
+			return time.Date(2300, 1, 1, 0, 0, 0, 0, time.UTC), time.Date(2700, 1, 1, 0, 0, 0, 0, time.UTC)
+		case ti%4 == 1 && r.Intn(4) == 0:
+			// RFC 5280 4.1.2.5: 99991231235959Z, "no well-defined expiration date" (benign)
+			rep.Count("certificates_with_no_expiry_date_9999", 1)
+			return base.Add(-time.Duration(1+r.Intn(100)) * time.Hour), time.Date(9999, 12, 31, 23, 59, 59, 0, time.UTC)
 		case bad(12):
 			return base.Add(-1000 * time.Hour), base.Add(-10 * time.Hour) // expired
 		case bad(12):
@@ -609,6 +619,41 @@ func runTopology(c *Ctx, ti int, r *mon.RNG) {
 			rep.Count("topologies_with_a_v1_or_v2_intermediate", 1)
 		}
 	}
+	// one topology in fifty: a CA that was re-keyed 120 times — 120 certificates of one name, each a different key, all
+	// properly issued by the first root and all in the intermediates pool — and (below) a first leaf that names this CA
+	// as issuer but is signed by none of its keys. Every candidate has to be tried and refused, however many there are.
+	var bulk, forged *gtCert
+	if ti%50 == 7 {
+		par := ents[0]
+		for j := 0; j < 120; j++ {
+			g := mkCA("inter", fmt.Sprintf("Rekeyed%d", ti), newKey())
+			g.bcValid, g.isCA, g.pathLen, g.keyUsage, g.eku, g.ekuUnknown, g.permitted, g.extraExt, g.critExt, g.foreign = true, true, -1, 0, nil, false, nil, false, false, 0
+			g.notBefore, g.notAfter = base.Add(-50*time.Hour), base.Add(50*time.Hour)
+			g.issuerName, g.signerKey = par.subject, par.keyID
+			if issue(g, par) {
+				g.inInters = true
+				g.id = len(all)
+				all = append(all, g)
+				bulk = g
+			}
+		}
+		if bulk != nil {
+			// and an attacker's certificate of the same name with the attacker's key, "issued" by the root with a signature
+			// that does not verify; the first leaf is signed by the attacker's key
+			f := mkCA("inter", bulk.subject, newKey())
+			f.bcValid, f.isCA, f.pathLen, f.keyUsage, f.eku, f.ekuUnknown, f.permitted, f.extraExt, f.critExt, f.foreign = true, true, -1, 0, nil, false, nil, false, false, 0
+			f.notBefore, f.notAfter = base.Add(-50*time.Hour), base.Add(50*time.Hour)
+			f.issuerName, f.signerKey = par.subject, par.keyID
+			f.forgedSig = true
+			if issue(f, par) {
+				f.inInters = true
+				f.id = len(all)
+				all = append(all, f)
+				forged = f
+			}
+			rep.Count("topologies_with_a_120-times_re-keyed_CA", 1)
+		}
+	}
 	// a loop: re-issue an earlier CA entity under a later one
 	if len(ents) > 2 && r.Intn(3) == 0 {
 		a, b := ents[r.Intn(len(ents))], ents[len(ents)-1]
@@ -656,7 +701,26 @@ func runTopology(c *Ctx, ti int, r *mon.RNG) {
 			g.issuerName, g.signerKey = ents[0].subject, ents[0].keyID
 			par = ents[0]
 		}
-		if oldInter != nil && i == 0 && !dotted {
+		if i == 0 && ti%7 == 5 {
+			// a certificate for a few hundred names, its own among them (position rotates with the topology)
+			var many []string
+			for j := 0; j < 300; j++ {
+				many = append(many, fmt.Sprintf("h%d.bulk.example.net", j))
+			}
+			pos := (ti * 37) % len(many)
+			g.dns = append(append(append([]string{}, many[:pos]...), fmt.Sprintf("leaf%d.example.com", i)), many[pos:]...)
+			g.manySANs = true
+			rep.Count("leaves_with_300_names", 1)
+		}
+		if bulk != nil && i == 0 {
+			// names the many-times re-keyed CA as its issuer and is signed by a key none of its certificates carries
+			g.issuerName, g.signerKey = bulk.subject, newKey()
+			if forged != nil {
+				g.signerKey = forged.keyID
+			}
+			par = bulk
+		}
+		if oldInter != nil && i == 0 && !dotted && bulk == nil {
 			g.issuerName, g.signerKey = oldInter.subject, oldInter.keyID
 			par = oldInter
 		}
@@ -742,6 +806,35 @@ func runTopology(c *Ctx, ti int, r *mon.RNG) {
 			j := rr.Intn(i + 1)
 			idx[i], idx[j] = idx[j], idx[i]
 		}
+		if forged != nil {
+			// the attacker's certificate sits behind p of the genuine same-name certificates in the pool, p running through
+			// 0..120 over the queries of the three such topologies: wherever a validator stops looking properly, one of
+			// them has it there
+			if q%4 != 3 {
+				leaf = leaves[0]
+			}
+			p := (q + nQ*(ti/50)) % 121
+			var slots []int
+			for k, i := range idx {
+				if all[i].subject == bulk.subject {
+					slots = append(slots, k)
+				}
+			}
+			var members []int
+			for _, k := range slots {
+				if idx[k] != forged.id {
+					members = append(members, idx[k])
+				}
+			}
+			if p > len(members) {
+				p = len(members)
+			}
+			members = append(members[:p], append([]int{forged.id}, members[p:]...)...)
+			for n, k := range slots {
+				idx[k] = members[n]
+			}
+			rep.Count("queries_with_forged_same-name_certificate_at_a_chosen_pool_position", 1)
+		}
 		// every other topology keeps one pair of pools for all its queries (verification must not change a pool: what an
 		// earlier Verify did on the same pools must not show in a later answer); the others build fresh pools per query
 		roots, inters := sharedRoots, sharedInters
@@ -790,6 +883,10 @@ func runTopology(c *Ctx, ti int, r *mon.RNG) {
 		default:
 			at = base
 		}
+		if ti%4 == 1 && q%8 == 5 {
+			// exactly 2^64 ns after the base instant (year 2614): whatever counts nanoseconds in 64 bits sees the base instant
+			at, tcls = base.Add(1<<63-1).Add(1<<63-1).Add(2), "base+2^64ns"
+		}
 		// host
 		host, hcls := "", "empty"
 		li := leaf.subject[len(leaf.subject)-1:]
@@ -799,6 +896,9 @@ func runTopology(c *Ctx, ti int, r *mon.RNG) {
 		}
 		if dotted && q%2 == 0 {
 			hsel = 10 // the bare domain
+		}
+		if leaf.manySANs && q%2 == 1 {
+			hsel = []int{3, 2, 13, 1}[(q/2)%4] // absolute form, other case, bracketed, exact
 		}
 		switch hsel {
 		case 0:
